@@ -370,6 +370,7 @@ func (ex *Exec) assignTo(st *State, lhs ast.Expr, v Val, k func(*State)) {
 			}
 			stt := under(t).(*types.Struct)
 			ss := ex.sortOf(t)
+			cur = ex.share(st2, cur)
 			var args []string
 			for i := 0; i < stt.NumFields(); i++ {
 				f := stt.Field(i)
@@ -379,7 +380,7 @@ func (ex *Exec) assignTo(st *State, lhs ast.Expr, v Val, k func(*State)) {
 					args = append(args, app(ss.Name+"_"+fieldAcc(f, i), cur.T))
 				}
 			}
-			ex.assignTo(st2, l.X, Val{T: app("mk_"+ss.Name, args...), S: ss, GoT: t}, k)
+			ex.assignTo(st2, l.X, ex.share(st2, Val{T: app("mk_"+ss.Name, args...), S: ss, GoT: t}), k)
 		})
 	case *ast.IndexExpr:
 		xt := ex.typeOf(l.X)
@@ -388,9 +389,9 @@ func (ex *Exec) assignTo(st *State, lhs ast.Expr, v Val, k func(*State)) {
 			ex.eval(st, l.X, func(st2 *State, m Val) {
 				ex.eval(st2, l.Index, func(st3 *State, key Val) {
 					key = ex.convert(st3, key, u.Key())
-					nm := mapStore(m, key.T, ex.convert(st3, v, u.Elem()).T)
+					nm := mapStore(ex.share(st3, m), key.T, ex.convert(st3, v, u.Elem()).T)
 					nm.GoT = xt
-					ex.assignTo(st3, l.X, nm, k)
+					ex.assignTo(st3, l.X, ex.share(st3, nm), k)
 				})
 			})
 		case *types.Slice, *types.Array:
